@@ -50,6 +50,23 @@ inductive VerifyMT | same | unstated | other
 inductive VerifyMD | nothing | all | wrong
   deriving DecidableEq, Repr, FromJson, ToJson
 
+/-- how the key behind the signer object was selected for this call -/
+inductive KeyVia
+  | fixed          -- the signer object is bound to the key (local signers)
+  | rotated        -- plugin: the key behind the same key id was switched before the call
+  | pluginConfig   -- plugin: the per-call PluginConfig selects the key version
+  deriving DecidableEq, Repr, FromJson, ToJson
+
+/-- what happened before on the signer object (and the verifier object) this round trip uses:
+the objects are shared by consecutive round trips. The model never looks at it. -/
+structure History where
+  position : Nat                 -- number of earlier signing calls on the same signer object
+  prevKeySpec : Option KeySpec   -- key spec behind the signer object at its previous call
+  prevKind : Option Kind         -- what its previous call signed
+  prevFormat : Option Format     -- envelope format of its previous call
+  keyVia : KeyVia
+  deriving DecidableEq, Repr, FromJson, ToJson
+
 structure KV where
   k : String
   v : String
@@ -103,6 +120,7 @@ structure Input where
   lagSec : Nat                -- whole seconds from the (truncated) signing time to verification
   exactIdentity : Bool        -- trusted identity is the exact subject (else the wildcard); both trust the signer
   byTag : Bool                -- oci: SignOCI is given a tag reference (else a digest reference); both resolve to `desc`
+  history : History           -- earlier calls on the shared signer / verifier objects (must not matter)
   deriving Repr, FromJson, ToJson
 
 structure Obs where
@@ -463,6 +481,34 @@ def toyTrust (k : KeySpec) : toy.Pub → Bool := fun p => (show Nat from p) == t
 
 def run (i : Input) : Obs :=
   runWith toy (toyKey i.keySpec) (toyTrust i.keySpec) (Int.ofNat (i.nowFracNs % 1000000000)) i
+
+/-! ### signer objects over consecutive calls
+
+Signer and verifier objects are reused. What a signer object can remember between calls is
+what its methods write (fact `c07SignerFieldWrites`): only `PluginSigner.manifestAnnotations`,
+set by `generateSignatureEnvelope` to the annotations of the plugin's answer (none for an honest
+plugin) and read by `SignOCI` for the signature *manifest* only. No signing or verifying step
+reads the state, so a sequence of round trips is the sequence of the individual round trips. -/
+
+structure ObjState where
+  manifestAnnotations : Option (List KV)
+  calls : Nat
+  deriving DecidableEq, Repr
+
+def stepWith (C : Crypto) (key : KeySpec → C.Key) (trust : C.Pub → Bool) (nowNs : Int)
+    (st : ObjState) (i : Input) : Obs × ObjState :=
+  let o := runWith C (key i.keySpec) trust nowNs i
+  (o, { manifestAnnotations :=
+          if i.signer == .pluginEnvelope && o.signed then some [] else st.manifestAnnotations,
+        calls := st.calls + 1 })
+
+/-- consecutive round trips on the same objects, each with its own key and clock -/
+def runSeqWith (C : Crypto) (key : KeySpec → C.Key) (trust : C.Pub → Bool) :
+    ObjState → List (Int × Input) → List Obs
+  | _, [] => []
+  | st, (nowNs, i) :: rest =>
+    let (o, st') := stepWith C key trust nowNs st i
+    o :: runSeqWith C key trust st' rest
 
 /-! ### specification -/
 
